@@ -9,6 +9,9 @@ use vx::term::Sym;
 use vx::*;
 
 type Abs = Vec<Vec<Sym>>;
+/// how often the in-program numcast::<u8>() had to succeed / had to be rejected as a whole (both must occur)
+static U8_FITS: AtomicU64 = AtomicU64::new(0);
+static U8_REJECTS: AtomicU64 = AtomicU64::new(0);
 
 #[derive(Clone, Debug, PartialEq, Eq, Hash)]
 enum St {
@@ -99,6 +102,44 @@ macro_rules! size_impl { ($n:expr, $Var:ident, $M:ident, $V:ident, $build_r:iden
                 if $dec_c(&c4) != wr { return bad("index_mut-is-not-row-i-col-j", "<col>::index_mut", format!("write at ({},{})", k / N, k % N)); }
             }
         }
+        // ---- one more per-element call from THIS state, each decoded by fields on its own (no second vek call that could cancel a slip) ----
+        {
+            // as_: a single cast (the AsCast action composes two casts through the same generic function, so an involutive
+            // slip - two elements swapped, a transposition - cancels there)
+            let au: A<u32, N> = std::array::from_fn(|i| std::array::from_fn(|j| arr[i][j].0 as u32));
+            if $dec_r(&r.as_::<u32>()) != au { return bad("single-cast-moves-an-element", "<row>::as_", format!("{:?} want {:?}", $dec_r(&r.as_::<u32>()), au)); }
+            if $dec_c(&c.as_::<u32>()) != au { return bad("single-cast-moves-an-element", "<col>::as_", format!("{:?} want {:?}", $dec_c(&c.as_::<u32>()), au)); }
+            // map into another element type
+            let am: A<u32, N> = std::array::from_fn(|i| std::array::from_fn(|j| arr[i][j].0 as u32 + 1000));
+            if $dec_r(&r.map(|s| s.0 as u32 + 1000)) != am { return bad("map-moves-an-element", "<row>::map<u32>", String::new()); }
+            if $dec_c(&c.map(|s| s.0 as u32 + 1000)) != am { return bad("map-moves-an-element", "<col>::map<u32>", String::new()); }
+            // map2 / apply2 against a partner of ANOTHER type whose N*N entries are pairwise distinct, combined injectively
+            // (pairing): any mis-routing of either operand shows, also inside one triangle of the partner
+            let tag: A<u8, N> = std::array::from_fn(|i| std::array::from_fn(|j| (i * N + j) as u8 + 1));
+            let wp: A<(Sym, u8), N> = std::array::from_fn(|i| std::array::from_fn(|j| (arr[i][j], tag[i][j])));
+            let gp = $dec_r(&r.map2($build_r(&tag), |a, t| (a, t)));
+            if gp != wp { return bad("pairs-the-wrong-elements", "<row>::map2<distinct partner>", format!("{:?} want {:?}", gp, wp)); }
+            let gp = $dec_c(&c.map2($build_c(&tag), |a, t| (a, t)));
+            if gp != wp { return bad("pairs-the-wrong-elements", "<col>::map2<distinct partner>", format!("{:?} want {:?}", gp, wp)); }
+            let wx: A<Sym, N> = std::array::from_fn(|i| std::array::from_fn(|j| Sym(arr[i][j].0 ^ ((tag[i][j] as u16) << 10))));
+            let (mut r5, mut c5) = (r.clone(), c.clone());
+            r5.apply2($build_r(&tag), |a, t| Sym(a.0 ^ ((t as u16) << 10))); c5.apply2($build_c(&tag), |a, t| Sym(a.0 ^ ((t as u16) << 10)));
+            if $dec_r(&r5) != wx { return bad("pairs-the-wrong-elements", "<row>::apply2<distinct partner>", format!("{:?} want {:?}", $dec_r(&r5), wx)); }
+            if $dec_c(&c5) != wx { return bad("pairs-the-wrong-elements", "<col>::apply2<distinct partner>", format!("{:?} want {:?}", $dec_c(&c5), wx)); }
+            // numcast and trace of the integer image of this state (image built by struct literal from the fields just verified)
+            let img: A<i64, N> = std::array::from_fn(|i| std::array::from_fn(|j| arr[i][j].0 as i64 - 5));
+            let w32: A<i32, N> = std::array::from_fn(|i| std::array::from_fn(|j| img[i][j] as i32));
+            if $build_r(&img).numcast::<i32>().map(|m| $dec_r(&m)) != Some(w32) { return bad("numcast-moves-an-element-or-fails", "<row>::numcast<i64,i32> after a program", String::new()); }
+            if $build_c(&img).numcast::<i32>().map(|m| $dec_c(&m)) != Some(w32) { return bad("numcast-moves-an-element-or-fails", "<col>::numcast<i64,i32> after a program", String::new()); }
+            // into u8: Some exactly when every element fits (negative or > 255 anywhere => None as a whole)
+            let w8: Option<A<u8, N>> = if img.iter().flatten().all(|v| (0..=255).contains(v)) { Some(std::array::from_fn(|i| std::array::from_fn(|j| img[i][j] as u8))) } else { None };
+            if w8.is_some() { U8_FITS.fetch_add(1, Relaxed); } else { U8_REJECTS.fetch_add(1, Relaxed); }
+            if $build_r(&img).numcast::<u8>().map(|m| $dec_r(&m)) != w8 { return bad("numcast-partial-or-spurious", "<row>::numcast<i64,u8> after a program", format!("{:?} want {:?}", $build_r(&img).numcast::<u8>(), w8)); }
+            if $build_c(&img).numcast::<u8>().map(|m| $dec_c(&m)) != w8 { return bad("numcast-partial-or-spurious", "<col>::numcast<i64,u8> after a program", format!("{:?} want {:?}", $build_c(&img).numcast::<u8>(), w8)); }
+            let wt: i64 = (0..N).map(|i| img[i][i]).sum();
+            if $build_r(&img).trace() != wt { return bad("trace-is-not-the-diagonal-sum", "<row>::trace after a program", format!("{} want {}", $build_r(&img).trace(), wt)); }
+            if $build_c(&img).trace() != wt { return bad("trace-is-not-the-diagonal-sum", "<col>::trace after a program", format!("{} want {}", $build_c(&img).trace(), wt)); }
+        }
         None
     }
     fn $step(depth: u8, abs: &Abs, r: &rm::$M<Sym>, c: &cm::$M<Sym>, a: Act) -> Option<St> {
@@ -160,7 +201,10 @@ fn invariant(s: &St) -> Option<(&'static str, String, String)> {
     match s { St::M2 { abs, r, c, .. } => check2(abs, r, c), St::M3 { abs, r, c, .. } => check3(abs, r, c), St::M4 { abs, r, c, .. } => check4(abs, r, c), St::Bad { .. } => None }
 }
 
-struct MatModel { transitions: Arc<AtomicU64>, acts: Vec<Act> }
+/// `keep_depth`: the program length stays part of the state, so values are merged only within one length and the bounded run
+/// is independent of the order in which the worker threads reach a value (with the length erased, a value first reached over a
+/// longer path by a racing thread is recorded at that depth and not expanded at the bound: the run then depends on scheduling)
+struct MatModel { transitions: Arc<AtomicU64>, acts: Vec<Act>, keep_depth: bool }
 impl Model for MatModel {
     type State = St;
     type Action = Act;
@@ -189,7 +233,7 @@ impl Model for MatModel {
         let mut next = match r { Ok(n) => n?, Err(e) => return Some(St::Bad { class: "panic", site: format!("{:?}", a), detail: format!("{:?}", e) }) };
         self.transitions.fetch_add(1, Relaxed);
         if let Some((class, site, detail)) = invariant(&next) { return Some(St::Bad { class, site: format!("{} after {:?}", site, a), detail }); }
-        match &mut next { St::M2 { depth, .. } | St::M3 { depth, .. } | St::M4 { depth, .. } => *depth = 0, _ => {} }
+        if !self.keep_depth { match &mut next { St::M2 { depth, .. } | St::M3 { depth, .. } | St::M4 { depth, .. } => *depth = 0, _ => {} } }
         Some(next)
     }
     fn properties(&self) -> Vec<Property<Self>> {
@@ -201,7 +245,7 @@ fn main() {
     let rep = Report::start("C03", "model_checking");
     let mut lk = json!({});
     rep.section("API-call programs over {transpose, array round trips (straight and crossed), layout swap, size changes, map/map2/apply/as_, diagonal builders, indexed writes, map_rows/map_cols}",
-        "stateright BFS from the three initial states (n=2,3,4; n^2 pairwise distinct symbols built with new(m00,..)) over 25 API-call actions applied to the row-major and the column-major value in lock step, a plain nested-Vec model beside them; in EVERY state: fields of both values = model, m[(i,j)] for all i,j, as_row_slice/as_col_slice order (shared and mutable views, raw pointers = start of the value's storage, a write at every flat position and through m[(i,j)] at every index lands in the right element), the slice read with gl_should_transpose, diagonal, Display of both = model rendering; states are merged by value equality of the real matrices (+ model); (a) the 19 permuting/relabelling/resizing actions searched to the fixpoint of the value graph, run twice (counts compared); (b) all 25 actions (adding map2/apply with a partner matrix, diagonal builders, indexed writes) for every program of length <= 5 quick / 7 thorough; non-trivial: all transitions", true, false, |s| {
+        "stateright BFS from the three initial states (n=2,3,4; n^2 pairwise distinct symbols built with new(m00,..)) over 25 API-call actions applied to the row-major and the column-major value in lock step, a plain nested-Vec model beside them; in EVERY state: fields of both values = model, m[(i,j)] for all i,j, as_row_slice/as_col_slice order (shared and mutable views, raw pointers = start of the value's storage, a write at every flat position and through m[(i,j)] at every index lands in the right element), the slice read with gl_should_transpose, diagonal, Display of both = model rendering, and one more single call decoded by fields on its own: as_::<u32>() (a lone cast, so involutive slips cannot cancel), map::<u32>, map2 and apply2 against a u8 partner with N*N pairwise distinct entries (results paired injectively), numcast::<i32>/<u8> and trace of the integer image of the state (u8: Some iff every element fits, both outcomes must occur); states are merged by value equality of the real matrices (+ model); (a) the 19 permuting/relabelling/resizing actions searched to the fixpoint of the value graph, run twice (counts compared); (b) all 25 actions (adding map2/apply with a partner matrix, diagonal builders, indexed writes) for every program of length <= 5 quick / 8 thorough; non-trivial: all transitions", true, false, |s| {
         // the permutation core: actions that only permute / relabel / resize — its value graph is small, so it is searched to the fixpoint
         let core: Vec<Act> = vec![Act::Transposed, Act::TransposeInPlace, Act::RowArrayRT, Act::ColArrayRT, Act::RowArraysRT, Act::ColArraysRT, Act::RowToCol, Act::ColToRow, Act::RowsToCols, Act::ColsToRows,
             Act::SwapLayouts, Act::Shrink3, Act::Shrink2, Act::Grow3, Act::Grow4, Act::Map, Act::AsCast, Act::ReverseRows, Act::ReverseCols];
@@ -218,7 +262,7 @@ fn main() {
         let mut found = false;
         for _run in 0..2 {
             let tr = Arc::new(AtomicU64::new(0));
-            let ck = MatModel { transitions: tr.clone(), acts: core.clone() }.checker().threads(16).spawn_bfs().join();
+            let ck = MatModel { transitions: tr.clone(), acts: core.clone(), keep_depth: false }.checker().threads(16).spawn_bfs().join();
             let (us, t, md) = (ck.unique_state_count() as u64, tr.load(Relaxed), ck.max_depth());
             if let Some(path) = ck.discoveries().into_values().next() { report_path(s, path); s.evals(t.max(1), t.max(1)); found = true; tot = (us, t, md); break; }
             counts.push((us, t, md));
@@ -230,14 +274,17 @@ fn main() {
             s.meta("core_fixpoint_run", json!({"actions": core.len(), "states": us, "transitions": t, "max_depth": md, "fixpoint_reached": true, "runs_compared": 2}));
             tot = (us, t, md);
             // all 25 actions, every program up to the depth bound (states merged by value)
-            let dmax = if s.thorough() { 7 } else { 5 };
+            let dmax = if s.thorough() { 8 } else { 5 };
             let tr = Arc::new(AtomicU64::new(0));
-            let ck = MatModel { transitions: tr.clone(), acts: ALL.to_vec() }.checker().threads(16).target_max_depth(dmax + 1).spawn_bfs().join();
+            let ck = MatModel { transitions: tr.clone(), acts: ALL.to_vec(), keep_depth: true }.checker().threads(16).target_max_depth(dmax + 1).spawn_bfs().join();
             let (us2, t2, md2) = (ck.unique_state_count() as u64, tr.load(Relaxed), ck.max_depth());
             if let Some(path) = ck.discoveries().into_values().next() { report_path(s, path); }
             s.evals(t2, t2);
             s.meta("bounded_run_all_actions", json!({"actions": ALL.len(), "program_length": dmax, "states": us2, "transitions": t2, "max_depth": md2}));
             tot = (tot.0 + us2, tot.1 + t2, tot.2.max(md2));
+            let (fits, rejects) = (U8_FITS.load(Relaxed), U8_REJECTS.load(Relaxed));
+            s.meta("in_program_numcast_u8", json!({"must_succeed": fits, "must_be_rejected_as_a_whole": rejects}));
+            if fits == 0 || rejects == 0 { s.rep.machinery_error(format!("in-program numcast::<u8>() never saw both outcomes: fits {} rejects {}", fits, rejects)); }
             s.sample(json!({"n": 4, "program": ["RowToCol", "SwapLayouts", "Shrink3", "Map2", "ReverseRows"], "invariant": "fields, m[(i,j)], slices, GL flag, diagonal, Display agree with the model in every state"}));
             s.sample(json!({"n": 2, "program": ["Grow4", "TransposeInPlace", "WriteTopRight", "ColArraysRT"]}));
         }
@@ -260,6 +307,113 @@ fn main() {
         }} }
         conc!(2, Mat2, rm, "row"); conc!(2, Mat2, cm, "col"); conc!(3, Mat3, rm, "row"); conc!(3, Mat3, cm, "col"); conc!(4, Mat4, rm, "row"); conc!(4, Mat4, cm, "col");
         s.sample(json!({"matrix": "Mat3<col> with a[i][j] = +-(100(i+1)+7j)", "trace": "sum of a[i][i]", "numcast": "every (i,j) preserved; i64::MAX at any single position => None"}));
+    });
+
+    rep.section("numcast across element kinds (float->int, signed->unsigned, int->float); Default for further element types",
+        "for the 6 matrix types, matrices with pairwise distinct entries of both signs built by struct literal: numcast f64->i32 (every element truncated in place), i64->u16 on the magnitudes, i64->f32; then for EVERY position (i,j) one unconvertible entry there (NaN, +-1e40, +inf for f64->i32; -1 and 65536 for i64->u16) must make the whole result None; Default of Sym / f64 / u8 matrices is the identity by fields, also after conversion to the other layout; non-trivial: all", true, false, |s| {
+        s.require_classes(&["converted-as-a-whole", "rejected-as-a-whole", "default"]);
+        macro_rules! nc { ($N:expr, $M:ident, $lay:ident, $other:ident, $name:expr) => {{
+            const N: usize = $N;
+            let a: A<i64, N> = std::array::from_fn(|i| std::array::from_fn(|j| (100 * (i as i64 + 1) + 7 * j as i64) * if (i + j) % 2 == 0 { 1 } else { -1 }));
+            let af: A<f64, N> = std::array::from_fn(|i| std::array::from_fn(|j| a[i][j] as f64 + 0.375));
+            let wf: A<i32, N> = std::array::from_fn(|i| std::array::from_fn(|j| af[i][j].trunc() as i32));
+            let site = format!("Mat{}<{}>::numcast<f64,i32>", N, $name);
+            s.eval(true); s.class("converted-as-a-whole");
+            if $lay::$M::<f64>::build(&af).numcast::<i32>().map(|m| m.decode()) != Some(wf) { s.violation(&site, "element-moved-or-spurious-failure", json!({"input": format!("{:?}", af), "want": format!("{:?}", wf)})); }
+            for i in 0..N { for j in 0..N { for bad in [f64::NAN, 1e40, -1e40, f64::INFINITY] {
+                let mut b = af; b[i][j] = bad; s.eval(true); s.class("rejected-as-a-whole");
+                if $lay::$M::<f64>::build(&b).numcast::<i32>().is_some() { s.violation_w(&site, "partial-conversion-not-rejected", json!({"position": [i, j], "entry": format!("{}", bad)}), (i * N + j) as u64); }
+            } } }
+            let au: A<i64, N> = std::array::from_fn(|i| std::array::from_fn(|j| a[i][j].abs()));
+            let wu: A<u16, N> = std::array::from_fn(|i| std::array::from_fn(|j| au[i][j] as u16));
+            let site = format!("Mat{}<{}>::numcast<i64,u16>", N, $name);
+            s.eval(true); s.class("converted-as-a-whole");
+            if $lay::$M::<i64>::build(&au).numcast::<u16>().map(|m| m.decode()) != Some(wu) { s.violation(&site, "element-moved-or-spurious-failure", json!({"input": format!("{:?}", au)})); }
+            s.eval(true); s.class("rejected-as-a-whole");
+            if $lay::$M::<i64>::build(&a).numcast::<u16>().is_some() { s.violation(&site, "partial-conversion-not-rejected", json!({"input": format!("{:?}", a), "what": "every second entry is negative"})); }
+            for i in 0..N { for j in 0..N { for bad in [-1i64, 65536] {
+                let mut b = au; b[i][j] = bad; s.eval(true); s.class("rejected-as-a-whole");
+                if $lay::$M::<i64>::build(&b).numcast::<u16>().is_some() { s.violation_w(&site, "partial-conversion-not-rejected", json!({"position": [i, j], "entry": bad}), (i * N + j) as u64); }
+            } } }
+            let w32: A<f32, N> = std::array::from_fn(|i| std::array::from_fn(|j| a[i][j] as f32));
+            s.eval(true); s.class("converted-as-a-whole");
+            if $lay::$M::<i64>::build(&a).numcast::<f32>().map(|m| m.decode()) != Some(w32) { s.violation(&format!("Mat{}<{}>::numcast<i64,f32>", N, $name), "element-moved-or-spurious-failure", json!({})); }
+            // Default for further element types, by fields, and seen through the other layout
+            let ids: A<Sym, N> = std::array::from_fn(|i| std::array::from_fn(|j| Sym((i == j) as u16)));
+            let idf: A<f64, N> = std::array::from_fn(|i| std::array::from_fn(|j| (i == j) as u8 as f64));
+            let idb: A<u8, N> = std::array::from_fn(|i| std::array::from_fn(|j| (i == j) as u8));
+            s.evals(4, 4); s.class_n("default", 4);
+            if <$lay::$M<Sym> as Default>::default().decode() != ids { s.violation(&format!("Mat{}<{}>::default<Sym>", N, $name), "not-identity", json!({})); }
+            if <$lay::$M<f64> as Default>::default().decode() != idf { s.violation(&format!("Mat{}<{}>::default<f64>", N, $name), "not-identity", json!({})); }
+            if <$lay::$M<u8> as Default>::default().decode() != idb { s.violation(&format!("Mat{}<{}>::default<u8>", N, $name), "not-identity", json!({})); }
+            if $other::$M::<Sym>::from(<$lay::$M<Sym> as Default>::default()).decode() != ids { s.violation(&format!("Mat{}<{}>::default<Sym>", N, $name), "not-identity-in-the-other-layout", json!({})); }
+        }} }
+        nc!(2, Mat2, rm, cm, "row"); nc!(2, Mat2, cm, rm, "col"); nc!(3, Mat3, rm, cm, "row"); nc!(3, Mat3, cm, rm, "col"); nc!(4, Mat4, rm, cm, "row"); nc!(4, Mat4, cm, rm, "col");
+        s.sample(json!({"call": "column_major::Mat3<f64>::numcast::<i32>()", "input": "a[i][j] = +-(100(i+1)+7j) + 0.375, entry (2,1) replaced by NaN", "want": "None"}));
+    });
+
+    rep.section("Display under format specifications does not depend on the layout",
+        "for n=2,3,4, element kinds i64 / f64 / &str (their Display honours width, fill, alignment, sign, zero padding and precision; Sym's does not), 3 matrices each (pairwise distinct entries of both signs and different printed lengths; its transpose; rows reversed), built by struct literal in both layouts: the output of the row-major and of the column-major value must be the same string under each of 10 format specifications, and under \"{}\" equal to the plain model rendering; counted: specifications that change the output at all (must occur, else the element type would ignore them); non-trivial: all", true, false, |s| {
+        s.require_classes(&["spec-changes-the-output", "plain"]);
+        const SPECS: [&str; 10] = ["{}", "{:7}", "{:<7}", "{:^8}", "{:*>9}", "{:+}", "{:07}", "{:.2}", "{:+010.3}", "{:>+9.1}"];
+        const SPECS_STR: [&str; 6] = ["{}", "{:7}", "{:<7}", "{:^8}", "{:*>9}", "{:.2}"];
+        macro_rules! fm { ($m:expr) => { vec![format!("{}", $m), format!("{:7}", $m), format!("{:<7}", $m), format!("{:^8}", $m), format!("{:*>9}", $m), format!("{:+}", $m), format!("{:07}", $m), format!("{:.2}", $m), format!("{:+010.3}", $m), format!("{:>+9.1}", $m)] } }
+        macro_rules! fs { ($m:expr) => { vec![format!("{}", $m), format!("{:7}", $m), format!("{:<7}", $m), format!("{:^8}", $m), format!("{:*>9}", $m), format!("{:.2}", $m)] } }
+        fn plain<T: std::fmt::Display + Copy, const N: usize>(a: &A<T, N>) -> String {
+            let mut o = String::from("(");
+            for i in 0..N { if i > 0 { o.push_str("\n "); } for j in 0..N { o.push(' '); o.push_str(&format!("{}", a[i][j])); } }
+            o.push_str(" )"); o
+        }
+        const WORDS: [&str; 16] = ["a", "bc", "def", "ghij", "klmno", "p", "qr", "stu", "vwxy", "zABCD", "E", "FG", "HIJ", "KLMN", "OPQRS", "T"];
+        macro_rules! disp { ($N:expr, $M:ident) => {{
+            const N: usize = $N;
+            let ai: A<i64, N> = std::array::from_fn(|i| std::array::from_fn(|j| { let k = (i * N + j) as i64; (k * k * k * 3 + 7 * k + 1) * if (i + 2 * j) % 3 == 1 { -1 } else { 1 } }));
+            let af: A<f64, N> = std::array::from_fn(|i| std::array::from_fn(|j| ai[i][j] as f64 / 8.0 + 0.0625));
+            let aw: A<&'static str, N> = std::array::from_fn(|i| std::array::from_fn(|j| WORDS[i * N + j]));
+            macro_rules! three { ($a:expr, $fmts:ident, $specs:expr, $kind:expr) => {{
+                let base = $a;
+                let rev = { let mut x = base; x.reverse(); x };
+                for (which, a) in [("generic", base), ("transposed", transpose(&base)), ("rows reversed", rev)] {
+                    let (r, c) = (rm::$M::build(&a), cm::$M::build(&a));
+                    let (fr, fc) = ($fmts!(r), $fmts!(c));
+                    for k in 0..fr.len() {
+                        s.eval(true);
+                        if k == 0 { s.class("plain"); } else if fr[k] != fr[0] { s.class("spec-changes-the-output"); } else { s.class("spec-without-effect-on-this-kind"); }
+                        if fr[k] != fc[k] { s.violation_w(&format!("Mat{}<{}>::Display with \"{}\"", N, $kind, $specs[k]), "row-major-and-column-major-output-differ", json!({"matrix": which, "row_major": fr[k], "column_major": fc[k]}), k as u64); }
+                    }
+                    let want = plain(&a);
+                    if fr[0] != want { s.violation(&format!("Mat{}<row>::Display<{}>", N, $kind), "display-is-not-the-rows-in-order", json!({"matrix": which, "got": fr[0], "want": want})); }
+                    if fc[0] != want { s.violation(&format!("Mat{}<col>::Display<{}>", N, $kind), "display-is-not-the-rows-in-order", json!({"matrix": which, "got": fc[0], "want": want})); }
+                    if s.wants_sample() { s.sample(json!({"n": N, "kind": $kind, "matrix": which, "spec": $specs[fr.len() - 1], "both_layouts_print": fr[fr.len() - 1]})); }
+                }
+            }} }
+            three!(ai, fm, SPECS, "i64"); three!(af, fm, SPECS, "f64"); three!(aw, fs, SPECS_STR, "&str");
+        }} }
+        disp!(2, Mat2); disp!(3, Mat3); disp!(4, Mat4);
+    });
+
+    rep.section("trace sums exactly the diagonal (free terms)",
+        "for the 6 matrix types and every one of the n! row arrangements of the n^2 free variables (so that every cell lies on the diagonal of some input): trace() of the value built by struct literal, of its transposed() copy, after transpose() in place and after conversion to the other layout, is an addition tree whose leaves are exactly the n diagonal variables (as a multiset; the association is left open); non-trivial: arrangements other than the identity", true, false, |s| {
+        use vx::term::Term;
+        s.require_classes(&["identity-arrangement", "permuted-arrangement"]);
+        macro_rules! trc { ($N:expr, $M:ident, $lay:ident, $other:ident, $name:expr) => {{
+            const N: usize = $N;
+            for (p, _) in vx::lattice::signed_permutations(N) {
+                let a: A<Term, N> = std::array::from_fn(|i| std::array::from_fn(|j| Term::var((p[i] * N + j) as u32)));
+                let mut want: Vec<Term> = (0..N).map(|i| a[i][i]).collect(); want.sort();
+                let ident = (0..N).all(|i| p[i] == i);
+                s.class(if ident { "identity-arrangement" } else { "permuted-arrangement" });
+                let m = $lay::$M::<Term>::build(&a);
+                let mut inplace = m; inplace.transpose();
+                if N == 3 && !ident && s.wants_sample() { s.sample(json!({"type": format!("Mat3<{}><Term>", $name), "rows_arranged": p, "trace": format!("{:?}", m.trace()), "diagonal_variables": format!("{:?}", want)})); }
+                for (how, t) in [("trace", m.trace()), ("transposed().trace", m.transposed().trace()), ("transpose(); trace", inplace.trace()), ("other layout ::from(m).trace", $other::$M::<Term>::from(m).trace())] {
+                    s.eval(!ident);
+                    let got = t.ac_leaves("add");
+                    if got != want { s.violation_w(&format!("Mat{}<{}>::{}", N, $name, how), "sums-other-elements-than-the-diagonal", json!({"rows_arranged": p, "summed": format!("{:?}", got), "diagonal": format!("{:?}", want), "tree": format!("{:?}", t)}), p.iter().enumerate().filter(|(i, &x)| *i != x).count() as u64); }
+                }
+            }
+        }} }
+        trc!(2, Mat2, rm, cm, "row"); trc!(2, Mat2, cm, rm, "col"); trc!(3, Mat3, rm, cm, "row"); trc!(3, Mat3, cm, rm, "col"); trc!(4, Mat4, rm, cm, "row"); trc!(4, Mat4, cm, rm, "col");
     });
     std::process::exit(rep.finish_with(lk));
 }
